@@ -708,6 +708,8 @@ class Evaluator:
         if isinstance(op, (ast.Add, ast.Sub, ast.Mult)):
             if _is_boolterm(a) and isinstance(b, (Poly, Cond, int, F)) and not isinstance(b, bool): a = s.mkcond(a, Poly.const(1), Poly.const(0))
             if _is_boolterm(b) and isinstance(a, (Poly, Cond, int, F)) and not isinstance(a, bool): b = s.mkcond(b, Poly.const(1), Poly.const(0))
+        if s._enum_member(a) and a.f.get('_enum_mixin_') in ('int', 'str'): a = a.f['_value_']
+        if s._enum_member(b) and b.f.get('_enum_mixin_') in ('int', 'str'): b = b.f['_value_']
         return s.lift2(lambda x, y: s._binop(op, x, y), a, b)
 
     def _binop(s, op, a, b):
@@ -868,6 +870,17 @@ class Evaluator:
     def compare(s, op, a, b):
         if isinstance(a, Cond): return s.mkcond(a.g, s.compare(op, a.a, b), s.compare(op, a.b, b))
         if isinstance(b, Cond): return s.mkcond(b.g, s.compare(op, a, b.a), s.compare(op, a, b.b))
+        if isinstance(op, (ast.Eq, ast.NotEq, ast.Is, ast.IsNot)) and (s._enum_member(a) or s._enum_member(b)):
+            want = isinstance(op, (ast.Eq, ast.Is))
+            if s._enum_member(a) and s._enum_member(b):
+                return ((a.clsref[1] is b.clsref[1]) and a.f['_name_'] == b.f['_name_']) == want          # members are singletons
+            e_, o_ = (a, b) if s._enum_member(a) else (b, a)
+            if isinstance(op, (ast.Is, ast.IsNot)) and (o_ is None or isinstance(o_, (str, bool, int, F, list, tuple, dict, Ref, Closure)) or (isinstance(o_, Poly) and o_.is_const())): return not want
+            if isinstance(op, (ast.Eq, ast.NotEq)):
+                if e_.f.get('_enum_mixin_') in ('int', 'str'): return s.compare(op, e_.f['_value_'], o_) if e_ is a else s.compare(op, o_, e_.f['_value_'])
+                if o_ is None or isinstance(o_, (str, bool, int, F, list, tuple, dict)) or (isinstance(o_, Poly) and o_.is_const()): return not want      # a plain Enum member equals only itself
+        if (s._enum_member(a) and a.f.get('_enum_mixin_') == 'int') and isinstance(op, (ast.Lt, ast.LtE, ast.Gt, ast.GtE)): a = a.f['_value_']
+        if (s._enum_member(b) and b.f.get('_enum_mixin_') == 'int') and isinstance(op, (ast.Lt, ast.LtE, ast.Gt, ast.GtE)): b = b.f['_value_']
         if isinstance(op, (ast.In, ast.NotIn)):
             r = None
             if isinstance(b, (list, tuple)) and not isinstance(a, (Poly, Opq, Cond)) or (isinstance(b, (list, tuple)) and all(not isinstance(x, (Opq, Cond)) for x in b) and isinstance(a, (str, Poly)) and (isinstance(a, str) or a.is_const())):
@@ -1249,7 +1262,42 @@ class Evaluator:
     def _iterable(s, v):
         """what a loop / comprehension over v visits: a NamedTuple record iterates its fields, a defensive copy iterates the original"""
         nt_ = s.namedtuple_items(v) if isinstance(v, Rec) else None
+        if isinstance(v, Ref) and v.kind == 'class':
+            em_ = s.enum_members(v.mod, v.node)
+            if em_ is not None: return list(em_.values())          # iterating an Enum class visits its members in definition order
         return nt_ if nt_ is not None else _iter_view(v)
+
+    def enum_members(s, m, cls):
+        """{NAME: member record} of an enum.Enum class of the package, in definition order (None for other classes).  A member is a record of
+        its class with fields name / value; int- and str-valued enums (IntEnum, StrEnum, (str, Enum)) also behave as their value"""
+        cache = s.prog.__dict__.setdefault('_enum_cache', {})
+        if id(cls) in cache: return cache[id(cls)][1]
+        out = None
+        bases = [ast.unparse(b).split('.')[-1] for _, c_ in s.prog.mro(m, cls) for b in c_.bases]
+        if any(b in ('Enum', 'IntEnum', 'StrEnum', 'Flag', 'IntFlag') for b in bases):
+            cache[id(cls)] = (cls, None)        # (guards against recursion through member values)
+            out = {}
+            mixin = 'int' if any(b in ('IntEnum', 'IntFlag', 'int') for b in bases) else ('str' if any(b in ('StrEnum', 'str') for b in bases) else None)
+            auto_n = 0
+            for n_ in cls.body:
+                tg = None
+                if isinstance(n_, ast.Assign) and len(n_.targets) == 1 and isinstance(n_.targets[0], ast.Name): tg, val = n_.targets[0].id, n_.value
+                elif isinstance(n_, ast.AnnAssign) and isinstance(n_.target, ast.Name) and n_.value is not None: tg, val = n_.target.id, n_.value
+                if tg is None or tg.startswith('_'): continue
+                if isinstance(val, ast.Call) and ast.unparse(val.func).split('.')[-1] == 'auto' and not val.args:
+                    auto_n += 1; v_ = Poly.const(auto_n)
+                else:
+                    try: v_ = s.ev(val, {'__parent__': None}, m, 1)
+                    except Exception: v_ = Opq('?', 'enum value')
+                    c_ = v_.real_const() if isinstance(v_, Poly) else None
+                    if c_ is not None and c_.denominator == 1: auto_n = int(c_)
+                out[tg] = Rec(cls.name, {'name': tg, 'value': v_, '_name_': tg, '_value_': v_, '_enum_mixin_': mixin}, (m, cls))
+        cache[id(cls)] = (cls, out)
+        return out
+
+    @staticmethod
+    def _enum_member(v):
+        return isinstance(v, Rec) and '_name_' in v.f and '_value_' in v.f
 
     def unique_private_member(s, name):
         """(module, node) of the private member `name` when exactly one class of the package declares it (method, property or field), else None"""
@@ -1307,6 +1355,9 @@ class Evaluator:
                 if v.name == 'builtins': return Ref('builtin', None, None, attr)          # builtins.filter is filter
                 return Ref('ext', None, None, v.name + '.' + attr)
             if v.kind == 'class':
+                em_ = s.enum_members(v.mod, v.node)
+                if em_ is not None and attr in em_: return em_[attr]
+                if em_ is not None and attr == '__members__': return dict(em_)
                 # class attribute (e.g. RectFunction.wavetype default, Enum member)
                 mem = s.prog.find_member(v.mod, v.node, attr)
                 if mem and isinstance(mem[1], (ast.AnnAssign, ast.Assign)) and mem[1].value is not None:
@@ -1418,6 +1469,9 @@ class Evaluator:
         if isinstance(v, Cond): return Cond(v.g, s.getitem(v.a, k), s.getitem(v.b, k))
         if isinstance(v, Ref) and v.kind == 'npfun' and v.name == 'r_' and isinstance(k, (tuple, list)) and not any(isinstance(x_, (str, Opq)) and (isinstance(x_, str) or x_.k[:1] == ('slice',)) for x_ in k):
             return s.npcall('hstack', [list(k)], {})              # np.r_[a, b, ...] joins its operands along the first axis (vectors: end to end)
+        if isinstance(v, Ref) and v.kind == 'class' and isinstance(k, str):
+            em_ = s.enum_members(v.mod, v.node)
+            if em_ is not None and k in em_: return em_[k]
         if isinstance(v, Opq) and len(v.k) == 2 and v.k[0] == 'globals' and isinstance(v.k[1], Ref) and isinstance(k, str):
             r_ = s.prog.resolve(v.k[1].mod, k)                # globals()['name'] is the module-level name
             if r_ is not None and r_[0] != 'unresolved': return s.lookup(k, {'__parent__': None}, v.k[1].mod)
@@ -1841,6 +1895,18 @@ class Evaluator:
         return out, {}
 
     def construct(s, ref: Ref, args, kw, depth):
+        if isinstance(ref, Ref) and ref.kind == 'class' and len(args) == 1 and not kw:
+            em_ = s.enum_members(ref.mod, ref.node)
+            if em_ is not None:
+                if s._enum_member(args[0]): return args[0]
+                hits = [mb for mb in em_.values() if same(mb.f['_value_'], args[0])]
+                if hits: return hits[0]
+                if isinstance(args[0], (str, bool, int, F)) or (isinstance(args[0], Poly) and args[0].is_const()):
+                    if s._try_depth > 0: raise Raised('ValueError', 'not a valid enum value')
+                    return RAISE
+                out = Opq('?', 'enum lookup by value')
+                for mb in reversed(list(em_.values())): out = s.mkcond(s.compare(ast.Eq(), args[0], mb.f['_value_']), mb, out)
+                return out
         m, cls = ref.mod, ref.node
         if cls.name in getattr(s, 'opaque_classes', ()):
             # canonical spelling: positional arguments bound to the dataclass fields and passed by keyword
